@@ -58,7 +58,7 @@ def replay(inst, failures, kfdir, rundir, prop):
         exe = os.path.join(rundir, "native-" + inst.id.replace("/", "_"))
         hsrc = os.path.join(V.HARNESS_DIR, inst.harness)
         cmd = ["g++"] + native_flags() + ["-I" + kfdir] + ["-D" + x for x in inst.defs] + \
-              ["-DVX_ENTRY=" + inst.entry, hsrc, os.path.join(V.HARNESS_DIR, "vx_native.cpp")] + \
+              ["-DVX_ENTRY=" + inst.entry, hsrc, os.path.join(V.HARNESS_DIR, "vx_native.cpp")] + [os.path.join(V.REPO, t) for t in sorted(set([t for t in inst.tus if not t.startswith("blocc/")] + inst.native_extra))] + \
               sorted(glob.glob(os.path.join(nd, "*.o"))) + ["-Wl,--allow-multiple-definition", "-ldl", "-lpthread", "-lm", "-o", exe]
         r = V.sh(cmd)
         build_err = r.stdout[-3000:] if r.returncode != 0 else None
@@ -114,8 +114,9 @@ def build_native_harness(inst, kfdir, rundir):
     if os.path.exists(exe):
         return exe, None
     hsrc = os.path.join(V.HARNESS_DIR, inst.harness)
+    extra_src = [os.path.join(V.REPO, t) for t in sorted(set([t for t in inst.tus if not t.startswith("blocc/")] + inst.native_extra))]      # apps/ and modules/ sources the kernel names
     cmd = ["g++"] + native_flags() + ["-I" + kfdir] + ["-D" + x for x in inst.defs] + \
-          ["-DVX_ENTRY=" + inst.entry, hsrc, os.path.join(V.HARNESS_DIR, "vx_native.cpp")] + \
+          ["-DVX_ENTRY=" + inst.entry, hsrc, os.path.join(V.HARNESS_DIR, "vx_native.cpp")] + extra_src + \
           sorted(glob.glob(os.path.join(nd, "*.o"))) + ["-Wl,--allow-multiple-definition", "-ldl", "-lpthread", "-lm", "-o", exe]
     r = V.sh(cmd)
     return exe, (r.stdout[-1500:] if r.returncode != 0 else None)
